@@ -60,6 +60,7 @@ def depth_of(v):
 def run(ctx):
     import nir
     rng = ctx.rng
+    cases, obs, reqs = [], [], []
     tmpdir = tempfile.mkdtemp(prefix="nirverif-c16-", dir="/var/tmp")
     try:
         for i in range(ctx.n(160)):
@@ -78,6 +79,12 @@ def run(ctx):
                 nir.write(p0, g0); nir.write(p1, g1)
             except Exception:
                 ctx.count("write_rejected"); continue
+            from props.c01 import model_tree
+            c1 = {"op": "write", "graph": withm, "version": nir.version}
+            cases.append(c1); obs.append({"file": model_tree(h5raw.traverse_file(p1))}); reqs.append(c1)
+            c2 = {"op": "graph", "graph": withm, "ops": ["file_rt"]}
+            st2, _ = run_graph_ops(withm, ["file_rt"])
+            cases.append(c2); obs.append({"steps": st2}); reqs.append(c2)
             # (1) carried faithfully
             try:
                 r1 = nir.read(p1)
@@ -120,6 +127,7 @@ def run(ctx):
             if scrub(s0) != scrub(s1):
                 ctx.violate(case, "metadata changed node types or the outcome of the type check / inference",
                             {"site": "types", "what": "inert-types"}, observed=[list(x) for x in jdiff(scrub(s0), scrub(s1))[:3]])
+        ctx.compare("files", cases, obs, reqs)
     finally:
         import shutil
         shutil.rmtree(tmpdir, ignore_errors=True)
